@@ -200,6 +200,96 @@ theorem eval_closed_cells (env : Validate.Env) (kB : RIssue) (cfg : Cfg) (T : Li
     validate { cfg with o := memoTab (cellsOracle env kB cfg T) texts } T = validateClosedCells env kB cfg T := by
   rw [memoTab_eq]; rfl
 
+/-! #### Delay groups: `Oracle.items` closed by `Validate.delayItems` -/
+
+/-- `items_closed`: what `split_delay_tags` sees of a row in the closed pipeline: nothing unless `delay/` occurs in the
+row's `", "`-joined text; else the top-level children of that text as `Validate.delayItems` prints them, each group holding
+a Delay tag with the value of `value_as_default_unit()` in eighths of a second (`absent` → no value, `raises` → ValueError).
+Inside the fragment (`delayOutside = false`) no value is defaulted: every Delay value is on the grid and decided. -/
+theorem items_closed (env : Validate.Env) (kB : RIssue) (cfg : Cfg) (r : Row) :
+    rowItems (closeCfg env kB cfg) r =
+      (if hasDelay (seriesText cfg r) then
+        (Validate.delayItems env (seriesText cfg r)).map fun x => ⟨x.1, x.2.map fun v => (gridVal v).getD .bad⟩
+       else []) ∧
+    (delayOutside env (seriesText cfg r) = false → hasDelay (seriesText cfg r) = true →
+      ∀ x ∈ Validate.delayItems env (seriesText cfg r), ∀ v, x.2 = some v →
+        ∃ dv, gridVal v = some dv ∧ (⟨x.1, some dv⟩ : Item) ∈ rowItems (closeCfg env kB cfg) r) := by
+  have h1 : rowItems (closeCfg env kB cfg) r =
+      (if hasDelay (seriesText cfg r) then
+        (Validate.delayItems env (seriesText cfg r)).map fun x => ⟨x.1, x.2.map fun v => (gridVal v).getD .bad⟩
+       else []) := by
+    show ((itemsOf env (seriesText cfg r)).getD []) = _
+    unfold itemsOf
+    split <;> rfl
+  refine ⟨h1, ?_⟩
+  intro hout hd x hx v hv
+  have hsome : (gridVal v).isSome = true := by
+    simp only [delayOutside, hd, Bool.true_and, List.any_eq_false] at hout
+    have := hout x hx
+    simp only [hv] at this
+    cases hg : gridVal v <;> simp_all
+  obtain ⟨dv, hdv⟩ := Option.isSome_iff_exists.mp hsome
+  refine ⟨dv, hdv, ?_⟩
+  rw [h1, if_pos hd]
+  exact List.mem_map.mpr ⟨x, hx, by simp [hv, hdv]⟩
+
+/-- on-grid values: `2.5 s` is 20 eighths, `0.3 s` is off the grid -/
+example : eighths ⟨25, -1⟩ = some 20 ∧ eighths ⟨3, -1⟩ = none ∧ eighths ⟨2, 0⟩ = some 16 ∧ eighths ⟨-5, -1⟩ = some (-4) := by
+  decide
+
+namespace DelayDemo
+open HedVerif.Schema HedVerif.Validate
+
+def names : List Str :=
+  [['R','e','d'], ['D','e','f'], ['D','e','f','/','#'], ['O','n','s','e','t'], ['I','n','s','e','t'], ['D','e','l','a','y'], ['D','e','l','a','y','/','#']]
+
+def secondUnit : Units.UnitDef := ⟨['s'], true, true, false, some ⟨1, 0⟩, ['s']⟩
+
+/-- Red; Def (requireChild) > #; Onset, Inset (topLevelTagGroup); Delay (topLevelTagGroup, requireChild) > # (takesValue,
+numericClass, unit class with the SI symbol `s` as default unit) -/
+def env0 : Env :=
+  { vocab := Vocab.build fold (names.map splitSlash), ns := [],
+    attrs := #[{}, { requireChild := true }, { takesValue := true, parent := some 1 },
+               { topLevelTagGroup := true }, { topLevelTagGroup := true },
+               { topLevelTagGroup := true, requireChild := true },
+               { takesValue := true, unitClasses := [0], valueClasses := [['n','u','m','e','r','i','c','C','l','a','s','s']], parent := some 5 }],
+    mods := [],
+    unitClasses := #[⟨['t'], [secondUnit], some ['s']⟩],
+    modern := true, cd := {} }
+
+/-- definition `A` ↦ `(Red)` -/
+def env : Env := { env0 with defs := [⟨['a'], false, resolveList env0 ['R','e','d'] (Tree.construct ['R','e','d'])⟩] }
+
+def kT : Temporal.Err → RIssue
+  | .sameDefs => ⟨['S'], 1⟩
+  | .offsetBeforeOnset => ⟨['O'], 1⟩
+  | .insetBeforeOnset => ⟨['I'], 1⟩
+
+def cfg : Cfg :=
+  { rowAdj := 2, hasOnset := true, columns := [['H']], catCols := [], mapIssues := [], refs := [], allColumns := [],
+    maskByRow := true, guardDelay := true, kKey := ⟨['K'], 10⟩, kRef := ⟨['F'], 1⟩, kUnordered := ⟨['U'], 10⟩,
+    kTemporal := kT, o := demoOracle }
+
+def delayedOnset : Str := ['(','D','e','l','a','y','/','1',' ','s',',',' ','D','e','f','/','A',',',' ','O','n','s','e','t',')']
+def inset : Str := ['(','D','e','f','/','A',',',' ','I','n','s','e','t',')']
+
+/-- onsets 1.0 s, 1.5 s, 3.0 s: `(Delay/1 s, Def/A, Onset)`, `(Def/A, Inset)`, `(Def/A, Inset)` -/
+def file : List Row := [⟨some 8, [delayedOnset], []⟩, ⟨some 12, [inset], []⟩, ⟨some 24, [inset], []⟩]
+
+/-- the Delay group of the first row is moved to the time point 2.0 s (16 eighths), after the second row -/
+example : (timeFrame (closeCfg env ⟨['B'], 1⟩ cfg) file).map (fun x => (x.1, x.2.2)) = [(8, 0), (12, 1), (16, 0), (24, 2)] := by
+  decide +kernel
+
+/-- `delay_pipeline_example_closed`: the Onset of `A` written in the row at 1.0 s is delayed by 1 s.  The Inset at 1.5 s
+(file row 3) therefore comes before its Onset and is reported; the Inset at 3.0 s (file row 4) is in scope — it is legal
+only because of the Delay-shifted Onset of the first row. -/
+theorem delay_pipeline_example_closed :
+    (validateClosed env ⟨['B'], 1⟩ cfg file).toOption = some [⟨['I'], 1, some 3, none, inset, .temporal 1⟩] ∧
+    (validateClosed env ⟨['B'], 1⟩ cfg [⟨some 8, [delayedOnset], []⟩, ⟨some 24, [inset], []⟩]).toOption = some [] := by
+  decide +kernel
+
+end DelayDemo
+
 /-- `shuffle_closed`: the shuffle theorem for the closed pipeline. -/
 theorem shuffle_closed (env : Validate.Env) (kB : RIssue) (cfg : Cfg) (S T : List Row) (hon : cfg.hasOnset = true)
     (hm : cfg.maskByRow = true) (hS : monotone (S.map (·.onset)) = true) (hperm : T.Perm S)
